@@ -489,6 +489,8 @@ func exclusiveC10(c *Ctx) {
 			ifn, nilSucc, found := b.nilTestOf(sameChanVar(P, sends[0].(*ssa.Send).Chan))
 			okn := found && b.onlyViaEdge(sends[0], ifn, 1-nilSucc)
 			b.add("PATH", "start-style calls have no outcome to deliver", okn, "send reached only through outcome != nil", sends[0])
+			own := ownOutcome(sends[0].(*ssa.Send))
+			b.add("PROV", "the runner's caller receives an outcome object of its own", own, pickS(own, "a fresh &ExclusiveOutcome{...} that goes nowhere else", "the outcome sent to the runner's caller is also reachable from elsewhere (stored on the item, sent twice): coalesced callers would share one mutable object, and one caller's edit shows up as another's result"), sends[0])
 		}
 		for _, f := range []string{"exclusiveItem.result", "exclusiveItem.err", "exclusiveItem.complete", "exclusiveItem.running"} {
 			st := an.FieldStores(b.fn, f)
@@ -523,6 +525,10 @@ func exclusiveC10(c *Ctx) {
 			okc = r.onlyViaEdge(ws, ifc[0], ts)
 		}
 		r.add("PATH", "a waiter copies the result only from a completed item", okc, "send reached only through complete == true", ws)
+		{
+			own := ownOutcome(ws)
+			r.add("PROV", "every coalesced waiter receives an outcome object of its own", own, pickS(own, "a fresh &ExclusiveOutcome{...} per waiter", "coalesced waiters are handed one shared outcome object (e.g. a pointer kept on the item): what one caller does to its outcome is seen by the others as the execution's result"), ws)
+		}
 		// ... only if there is an outcome channel, and then always
 		wifn, wnil, wfound := r.nilTestOf(sameChanVar(P, ws.Chan))
 		okw := wfound && r.onlyViaEdge(ws, wifn, 1-wnil) && !P.PathExists(r.fn, wifn, an.IsReturn, an.Is(ws), cutEdge(wifn, wnil))
@@ -1115,4 +1121,31 @@ func sameChanVar(P *an.Prog, ch ssa.Value) func(ssa.Value) bool {
 		}
 		return want != nil && cellOf(v) == want
 	}
+}
+
+// ownOutcome: the value sent is an object allocated for this send alone - its address goes nowhere but into the
+// channel (field initialisation aside), so no two callers, and no caller and the item, share one outcome.
+func ownOutcome(send *ssa.Send) bool {
+	al, ok := send.X.(*ssa.Alloc)
+	if !ok || !al.Heap {
+		return false
+	}
+	for _, r := range *al.Referrers() {
+		switch x := r.(type) {
+		case *ssa.FieldAddr:
+			for _, rr := range *x.Referrers() {
+				if st, isSt := rr.(*ssa.Store); !isSt || st.Addr != ssa.Value(x) {
+					return false
+				}
+			}
+		case *ssa.Send:
+			if x != send {
+				return false
+			}
+		case *ssa.DebugRef:
+		default:
+			return false
+		}
+	}
+	return true
 }
